@@ -12,13 +12,17 @@ from props.engine_common import engine_rig, CONTROL
 PCODE = "Mark: A\nBlock: B1\n    Mark: B\n    Wait: 30s\n    End block\nMark: C\n"
 # a method whose third instruction fails: the run is paused by the error (no Pause command involved)
 PCODE_ERR = "Block: B1\n    Mark: B\n    Foo\n    Wait: 30s\n"
+# two failing instructions: the run is paused by the first error, resumed by the user without correcting the method, and paused again
+PCODE_ERR2 = "Block: B1\n    Mark: B\n    Foo\n    Mark: C\n    Bar\n    Wait: 30s\n"
 CMDS = ["none"] + CONTROL
 
 
 def harness(sym):
     n = sym.shard.get("n", 4)
     prefix = sym.shard.get("cmds", [])
-    with engine_rig(sym, PCODE_ERR if sym.shard.get("error") else PCODE) as rig:
+    second = sym.shard.get("second_error")
+    resume_slot = sym.int("resume_slot", 1, n) if second else None
+    with engine_rig(sym, PCODE_ERR2 if second else (PCODE_ERR if sym.shard.get("error") else PCODE)) as rig:
         e = rig.engine
         rig.user("Start")
         trace = ["Start"]
@@ -27,7 +31,10 @@ def harness(sym):
         for i in range(warm + 1 + n):
             if i > warm:
                 j = i - warm
-                c = prefix[j - 1] if j - 1 < len(prefix) else sym.choice(f"c{j}", CMDS)
+                if second:
+                    c = second if j == resume_slot else "none"
+                else:
+                    c = prefix[j - 1] if j - 1 < len(prefix) else sym.choice(f"c{j}", CMDS)
                 if c != "none":
                     rig.user(c)
                 trace.append(c)
@@ -62,9 +69,10 @@ def harness(sym):
 
 
 def _shards(tier):
+    second = [{"n": 12, "second_error": "Unpause"}]
     if tier == "quick":
-        return [{"n": 4, "cmds": [a, b]} for a in CMDS for b in CMDS] + [{"n": 5, "cmds": ["none", "none", a], "error": True} for a in CMDS]
-    return [{"n": 5, "cmds": [a, b]} for a in CMDS for b in CMDS] + [{"n": 7, "cmds": ["none", "none", a], "error": True} for a in CMDS]
+        return [{"n": 4, "cmds": [a, b]} for a in CMDS for b in CMDS] + [{"n": 5, "cmds": ["none", "none", a], "error": True} for a in CMDS] + second
+    return [{"n": 5, "cmds": [a, b]} for a in CMDS for b in CMDS] + [{"n": 7, "cmds": ["none", "none", a], "error": True} for a in CMDS] + second
 
 
 OBLIGATIONS = [Obligation(
@@ -76,7 +84,7 @@ OBLIGATIONS = [Obligation(
              "openpectus.engine.command_manager:CommandManager.execute_commands"],
     symbolic="tick increments: arbitrary strictly positive reals (<=10 s) per tick; control command before each tick: selector over none/Start/Stop/Pause/Unpause/Hold/Unhold/Restart",
     bounds={"quick": "Start, 2 idle ticks, then 4 command slots each followed by a tick (7 ticks), one method with a block and a long Wait",
-            "thorough": "Start, 2 idle ticks, then 5 command slots (8 ticks); plus a method whose instruction fails (error pause) followed by command slots"},
+            "thorough": "Start, 2 idle ticks, then 5 command slots (8 ticks); plus a method whose instruction fails (error pause) followed by command slots; plus (both tiers) a method with two failing instructions, resumed by Unpause at a solver-chosen slot of 12 (second error pause)"},
     assumptions=["floats modelled as reals (CrossHair RealBasedSymbolicFloat); counterexamples are replayed with IEEE floats",
                  "zero increments excluded (separate boundary, forks every set_value on 'unchanged')",
                  "a tick in which System State changes is tolerated either way (the statement does not fix the order inside a tick)",
